@@ -386,7 +386,7 @@ def H_fragments(ctx, cfg):
     bad = []
     for colon in (False, True):
         for gz in (False, True):
-            table = [("7", ["a", "b:0"]), ("12", []), ("3", ["only"]), ("7", ["second"])]
+            table = [("7", ["a", "b:0"]), ("12", []), ("3", ["only"])] + ([("7", ["second"])] if gz else [])     # a repeated label only in the API variant
             url = f"/mfs/f{int(colon)}{int(gz)}"
             info = V.make_info("uint32", 1, (2, 2, 2), (2, 2, 2))
             info["mesh"] = "mesh"
@@ -396,7 +396,14 @@ def H_fragments(ctx, cfg):
             W.env.fs.files["/in/links.csv"] = __import__("vf.sbytes", fromlist=["SBytes"]).SBytes(csv_text.encode())
             mod = W.script("link_mesh_fragments", open=W.env.open)
             try:
-                rc = mod.make_mesh_fragment_links("/in/links.csv", url, no_colon_suffix=colon, options={"gzip": gz})
+                if gz:
+                    rc = mod.make_mesh_fragment_links("/in/links.csv", url, no_colon_suffix=colon, options={"gzip": gz})
+                else:
+                    # through the command line (option plumbing, exit status)
+                    load.patch("utils", init_logging_for_cmdline=lambda: None)
+                    rc = mod.main(["link-mesh-fragments", "/in/links.csv", url, "--no-gzip"] + (["--no-colon-suffix"] if colon else []))
+                    if rc != 0:
+                        bad.append([colon, gz, "exit status", rc])
             except Exception as e:
                 # the duplicated label must be refused or overwritten, not crash half-way... storing twice without overwrite fails
                 rc = f"{type(e).__name__}"
@@ -549,9 +556,14 @@ def replay(cfg, cex):
             with open(csvf, "w", newline="") as f:
                 f.write("".join(",".join([lab] + frs) + "\r\n" for lab, frs in table))
             try:
-                mod.make_mesh_fragment_links(csvf, td, no_colon_suffix=True, options={"gzip": False})
+                try:
+                    rc = mod.main(["link-mesh-fragments", csvf, td, "--no-gzip", "--no-colon-suffix"])
+                except SystemExit as e:
+                    rc = e.code
             except Exception as e:
                 return True, f"link-mesh-fragments raised {type(e).__name__}: {e} on a well-formed table"
+            if rc != 0:
+                return True, f"link-mesh-fragments exited with status {rc} on a well-formed table"
             for lab, frs in table:
                 try:
                     with open(os.path.join(td, "mesh", lab)) as f:
